@@ -40,11 +40,17 @@ func NewWith(convert StructOptions, value interface{}) Value {
 
 	// drill through pointers and interfaces to the underlying type
 	var v = reflect.ValueOf(value)
+	var drilled = false
 	for v.Kind() == reflect.Interface || v.Kind() == reflect.Ptr {
 		v = v.Elem()
+		drilled = true
 	}
 	if !v.IsValid() {
 		return Null{}
+	}
+	if drilled && v.CanInterface() {
+		// the pointed-to value may itself be a Value or a Marshaler.
+		return NewWith(convert, v.Interface())
 	}
 
 	if v.Type() == timeType {
